@@ -102,6 +102,10 @@ def c02(rec, tier):
     f4_obj.run_closures(rec, F)
     # a captured variable lives as long as a closure or a running frame refers to it
     f5_trace.run(rec, F, only_adts=("laythe_core::object::closure::Closure", "laythe_core::captures::Captures", "laythe_core::object::ly_box::LyBox", "laythe_vm::fiber::call_frame::CallFrame", "laythe_vm::fiber::Fiber"))
+    # a box sitting in its declaring frame's slot is reached through the type-erased ObjectRef
+    f5_trace.run_paths(rec, F, sem.gc_bearing_adts(F))
+    # variable accesses survive the peephole pass (local / box / capture are different index spaces)
+    f11_peephole.run(rec, F, S)
     T = f1_isa.run_tables(rec, F)
     f1_isa.run_width(rec, F, T)
 
@@ -278,6 +282,8 @@ def c16(rec, tier):
     f9_casts.run_vm_sizes(rec, F)
     f4_vm.hook_exit(rec, F)
     f4_gc.growth_progress(rec, F)
+    f8_hazards.run(rec, F)
+    f4_exc.run_native_env(rec, F, S)
     # sentinel tests (x == VALUE_UNDEFINED) guard host panics
     f10_parity.run_number_equality(rec, F, "unboxed")
     f4_sched.queue_once(rec, F)
@@ -309,6 +315,8 @@ def c19(rec, tier):
     f4_vm.diagnostics_gate(rec, F)
     f4_repl.run_redeclare(rec, F)
     f4_repl.run_capture_arms(rec, S)
+    # fibers queued by one entry are still there for the next: the run queue is only ever pushed to and popped from
+    f4_sched.run_queue_fifo(rec, F)
     f10_parity.run_number_equality(rec, F, "unboxed")
 
 
